@@ -48,12 +48,15 @@ def _bind(target, labels, env, sources=None):
                     del env[k]
 
 
-def run(path, sources):
-    """sources: {name: {labels}}.  Returns the environment {dotted name: labels} at the end of the path."""
+def run(path, sources, on_stmt=None):
+    """sources: {name: {labels}}.  Returns the environment {dotted name: labels} at the end of the path.
+    on_stmt(stmt, env) is called with the environment as it is just before each statement of the path takes effect."""
     env = {k: set(v) for k, v in sources.items()}
     for ev in path.events:
         if ev[0] == "stmt":
             st = ev[1]
+            if on_stmt is not None and not isinstance(st, (ast.For, ast.While)):
+                on_stmt(st, env)
             if isinstance(st, ast.Assign):
                 lab = influence(st.value, env)
                 for t in st.targets:
